@@ -11,7 +11,7 @@ CHECKS = [
         'text': 'Thousands of generated images (grown along their own execution on an independent reference machine, all '
                 'four widths, aligned/unaligned/self-modifying ops, IO, every termination cause) are run on the featured, '
                 'fast and native engines through fjm_run.run; cause, op count, fault address and the device-side IO call '
-                'log must equal the reference. Held = no divergence on the executions observed, not a proof. Includes images of 20-300 distinct 2^14-word pages walked several times (page-table growth) and 270 000-op chains (signal-poll cadence).',
+                'log must equal the reference. Held = no divergence on the executions observed, not a proof. Includes images of 20-300 distinct 2^14-word pages walked several times (page-table growth) and 270 000-op chains (signal-poll cadence). Also runs the native engine with the last-ops ring of length 10 that the fj command uses, and far segments that share a page with a gap between them.',
         'note': 'trusts the 150-line reference machine, CPython, gcc; segments restricted to the 2^w-bit space',
     },
     {
@@ -30,7 +30,7 @@ CHECKS = [
                 'threshold, shared data, boundary word values, deliberate flaws) are replayed on versions 0-3 and lzma presets; '
                 'the reader result must equal a 30-line model of what the calls mean (segments, words, invalidity outside), a '
                 'writer rejection must be the library write error, and corpus programs assembled at the four versions must load '
-                'identically. A third of the sequences are driven by a caller that catches a rejected call and goes on (model = the accepted calls); dedicated shards write 9-65 MiB pools with far repeats at every lzma preset (beyond the compressor window).',
+                'identically. A third of the sequences are driven by a caller that catches a rejected call and goes on (model = the accepted calls); dedicated shards write 9-65 MiB pools with far repeats at every lzma preset (beyond the compressor window). The caller may also scribble on the lists it passed; reserve-only-segment programs are assembled at the four versions; every 4th shard runs under python -O.',
         'note': 'trusts the call-sequence model; over-rejection by the writer is counted, not flagged (acceptance floor enforced)',
     },
     {
@@ -40,7 +40,7 @@ CHECKS = [
                 'field set to boundary and neighbouring values, payload damage incl. inside the lzma stream, random and '
                 'structure-aware files: Reader must raise only FlipJumpReadFjmException, accepted prefixes must load the '
                 'original image, accepted files must satisfy an independently coded consistency predicate, and fjm_run.run '
-                'on accepted files must end in a termination or library exception (RLIMIT_AS + watchdog). A mutation kind builds well-formed files whose only contradiction is the relation between 2-5 segments (empty, nested, overlapping, any table order).',
+                'on accepted files must end in a termination or library exception (RLIMIT_AS + watchdog). A mutation kind builds well-formed files whose only contradiction is the relation between 2-5 segments (empty, nested, overlapping, any table order). Every 4th shard runs under python -O.',
         'note': 'never-hangs restated as bounded progress (30 s per Reader call on files < 64 KiB); non-canonical but '
                 'consistent files are observations only',
     },
@@ -73,7 +73,7 @@ CHECKS = [
                 'fast and native flat/hybrid/paged/measure with and without the ring; what leaves run() (identity of the '
                 'exception, wrapping, cause, statistics) and the device-side record, op count, last-ops list and memory must '
                 'equal the reference machine stopped at that call. Real setitimer/SIGINT interrupts on endless loops check the '
-                'asynchronous case: the stopped state must be a sub-step state of the next op at the reported count. The foreign failure is drawn from 22 built-in exception families; a worker killed by a fatal signal is a verdict.',
+                'asynchronous case: the stopped state must be a sub-step state of the next op at the reported count. The foreign failure is drawn from 22 built-in exception families; a worker killed by a fatal signal is a verdict. Rings of length 0 are configurations too.',
         'note': 'native signals are polled every 2^18 ops, so native async stops are observed only there; for exceptions that '
                 'leave run() no statistics object exists to inspect',
     },
@@ -85,7 +85,7 @@ CHECKS = [
                 'device reads, the effect of its writes on later ops and the final memory must equal the reference machine '
                 'executing the same script. The headless screen is fed random and structure-aware command streams and must '
                 'agree with an independently written decoder of the documented layout (frames, pixels, palette, rejection '
-                'point, device-error type); generated screen-driving programs must present the same frame hashes on all engines. Devices also read and patch memory inside attach_memory.',
+                'point, device-error type); generated screen-driving programs must present the same frame hashes on all engines. Devices also read and patch memory inside attach_memory. Packed bytes at any word-aligned address; palette sizes around 2^bpp.',
         'note': 'interactive pygame devices cannot be exercised (pygame absent); device writes outside segments are unspecified',
     },
     {
@@ -108,7 +108,7 @@ CHECKS = [
                 'missing/repeated files) plus token-, byte- and line-level mutations of generated valid programs and stl '
                 'programs, at all widths and versions: assemble() must succeed or raise a FlipJumpException that is not the '
                 'generic "unknown exception" wrapper, whose message names the construct where the generator knows it, within the '
-                'watchdog, leaving no loadable output file. Classes added by the seeding rounds: constants and literals of thousands of digits in 20+ positions, invisible and Python-only white-space characters, depth limit reached without recursion, reps/pads beyond a small memory (bounded work, CPU-time hang verdict), internal-name collisions; every third assembly also writes the debugging file, every seventh the statistics.',
+                'watchdog, leaving no loadable output file. Classes added by the seeding rounds: constants and literals of thousands of digits in 20+ positions, invisible and Python-only white-space characters, depth limit reached without recursion, reps/pads beyond a small memory (bounded work, CPU-time hang verdict), internal-name collisions; every third assembly also writes the debugging file, every seventh the statistics. Valid literals in every accepted notation, and reps/pads beyond a small memory, complete the classes; every 5th shard runs under python -O.',
         'note': 'never-hangs is bounded progress (30 s / 120 s with stl); astronomically large constants and unbounded rep counts '
                 'are unbounded-work programs, confined to a reported-only class',
     },
@@ -119,7 +119,7 @@ CHECKS = [
                 'warning modes, failing inputs of every C14 error class, recursion depths 5..5000, the stl at widths where it does '
                 'not fit, the probe itself twice) are followed by a probe assembly whose .fjm and .fjd bytes must equal those '
                 'of the probe assembled in a fresh process, under several PYTHONHASHSEED values, another working directory and a '
-                'copy of the sources elsewhere. Probes a fresh process rejects must be rejected identically after every history; the corpus includes layout-shifted stl programs, a warning-only source, a deep-expression source and >2^16-word images, with targeted shapes (last-stage failure / small recursion depth / bigger image / tolerant warning mode right before the probe).',
+                'copy of the sources elsewhere. Probes a fresh process rejects must be rejected identically after every history; the corpus includes layout-shifted stl programs, a warning-only source, a deep-expression source and >2^16-word images, with targeted shapes (last-stage failure / small recursion depth / bigger image / tolerant warning mode right before the probe). 30 % of histories write every output over the same two paths; targeted shapes also cover the constants of the first stl program, a many-segment program under other hash seeds, the same file under another short name, and relative paths after a change of directory.',
         'note': 'observed at the files only; the parse cache is exercised cold, warm, warm for another width and warm for the other warning mode',
     },
     {
@@ -129,7 +129,7 @@ CHECKS = [
                 'through the fj one-step flow (with -o and, captured by a sys.addaudithook wrapper around the real main(), '
                 'without -o), the fj --asm -o / --run two-step flow and flipjump.assemble/run under random option '
                 'combinations; .fjm and .fjd bytes, program stdout and termination cause/op count must agree, and the defaults '
-                '(width 64, version 3 with -o, 1 without, stl included) are read from the produced headers. The API is also used as a library: sessions of 3-6 assemblies in one process (good, failing, repeated, the stl given explicitly) each compared with a fresh fj process; the one-call assemble_and_run is a fourth route; a warning-bearing program runs through every route in both warning modes; -o with a preset and no -v must equal the same command with -v 3.',
+                '(width 64, version 3 with -o, 1 without, stl included) are read from the produced headers. The API is also used as a library: sessions of 3-6 assemblies in one process (good, failing, repeated, the stl given explicitly) each compared with a fresh fj process; the one-call assemble_and_run is a fourth route; a warning-bearing program runs through every route in both warning modes; -o with a preset and no -v must equal the same command with -v 3. Output paths may already hold longer files; refusals must agree on every route including the temporary-file flow with its own default version; deep expressions with the API hosted under a raised recursion limit; a source path through a symbolic link; many long file names.',
         'note': 'the API has no lzma-preset parameter, so version-3 bytes are compared with the API only at the default preset',
     },
     {
@@ -139,7 +139,7 @@ CHECKS = [
                 'segment, reserve; every number rendered as an expression over literals, constants, labels and $) at all widths '
                 'and versions are assembled and read back; every statement word, every label and every reserved word must equal '
                 'an independently computed denotation, each wflip is followed in the loaded image (exact set bits, popcount ops, '
-                'return address, auxiliary ops off user space), and layouts the model proves impossible must be rejected. Includes parity-only impossible layouts (odd start / odd span / both) and literals of 4000+ digits.',
+                'return address, auxiliary ops off user space), and layouts the model proves impossible must be rejected. Includes parity-only impossible layouts (odd start / odd span / both) and literals of 4000+ digits. Every 4th shard runs under python -O; flaws include words outside [0,2^w) and negative reserves; expressions include logical operators over labels and floor divisions.',
         'note': 'one-sided on layout: model-impossible-but-assembled is a violation, model-possible-but-rejected is counted '
                 '(the appended wflip area may legitimately collide); pad-hole contents are unspecified',
     },
@@ -173,7 +173,7 @@ CHECKS = [
                 'denote (parameter, @ local, global, rep iterator, constant); spellings come from a six-name pool so caller and '
                 'callee identifiers collide at every depth. The macro rendering (call DAGs, arity overloading, nested namespaces '
                 'with dotted/relative names, reps with counts 0..5, 1-3 files) and the hand-inlined rendering (arguments '
-                'substituted in parentheses, locals renamed apart, reps unrolled) must assemble to identical segments and words. Namespaces up to four deep with k-dot relative names; continuation lines and CRLF files.',
+                'substituted in parentheses, locals renamed apart, reps unrolled) must assemble to identical segments and words. Namespaces up to four deep with k-dot relative names; continuation lines and CRLF files. Every 6th program is assembled behind a cached stl prefix; macros that pad by a parameter; namespace constants and late constants spelled like parameters; one guarded compile-time recursion (120-850 levels) per shard.',
         'note': 'relies on the scoping rules of DESIGN Appendix B; extern (>) labels and label-valued parameters are not generated; '
                 'the inlined side is itself judged by C02',
     },
@@ -184,7 +184,7 @@ CHECKS = [
                 'expansion incl. rep iterations) must appear in the saved table under its expansion-path name with the address of '
                 'the statement it precedes (taken from the hand-inlined program), and no undeclared user-level name may appear; '
                 'random label dictionaries must survive save/load unchanged and in order; breakpoints by address, exact label '
-                'and substring must resolve to exactly the model set. Generated sources include backslash-newline continuations, CRLF files, namespaces four deep and k-dot relative names; a 10-70 MiB label table goes through save/load and breakpoint resolution.',
+                'and substring must resolve to exactly the model set. Generated sources include backslash-newline continuations, CRLF files, namespaces four deep and k-dot relative names; a 10-70 MiB label table goes through save/load and breakpoint resolution. Every 3rd program is assembled twice (whole tables must agree), every 5th over the output files of the same sources at another width; the address where each expansion starts must carry a label; the stl prefix runs under alternating short names and every path tag must be a file of the current assembly.',
         'note': 'assembler bookkeeping names (:start:, :wflips:, wflip-area markers) are ignored',
     },
     {
@@ -196,7 +196,7 @@ CHECKS = [
                 'variable and sp with a model transcribed from the `like: *ptr = src` doc formulas, and the 10-bit id each SYNC '
                 'spells with the predicted next sync point (call/return, fcall/fret, ptr_jump). Pair programs walk all ordered '
                 'pairs of target cells through two pointers, sequence programs mix 10-40 applications with balanced push/pop, '
-                'call nests go to depth 6; hex at w=32/64, bit pointers at w=16/32/64; slices re-run on the pure-Python loop.',
+                'call nests go to depth 6; hex at w=32/64, bit pointers at w=16/32/64; slices re-run on the pure-Python loop. Before the first push every cell of the initialised stack must be an empty data cell (documented capacity).',
         'note': 'documented-as-assumed-away usage (empty-stack pops, unaligned pointers, overlapping operands) is never generated; '
                 'library scratch registers and the return-register content after fcall/fret are not compared',
     },
@@ -210,7 +210,7 @@ CHECKS = [
                 'forms, shifts, cond_jumps, mul, div/idiv with every rem_opt). Single-macro programs enumerate every operand '
                 'value when the macro reads <= 16 bits (all 65536 digit pairs for n=2) and sample boundary-biased values above; '
                 'sequence programs of random applications over shared variables check that no carry or table state leaks; '
-                'slices are re-run on the pure-Python loop. Also with the documented standalone inits (hex.tables.init_shared + the required table) at drawn positions incl. w=16, and with a carry left set by an earlier documented macro (every other macro must still compute its formula).',
+                'slices are re-run on the pure-Python loop. Also with the documented standalone inits (hex.tables.init_shared + the required table) at drawn positions incl. w=16, and with a carry left set by an earlier documented macro (every other macro must still compute its formula). Sequence programs have reserved space between applications and define user constants spelled like the library\'s parameters.',
         'note': 'spec table built by a sub-agent under the rule "transcribe the documentation, never the body", reviewed; '
                 'inputs the documentation leaves open (dirty undeclared state for table-using macros, overflowing idiv) are '
                 'counted as unspecified; w=16 is not exercised (hex.init does not fit)',
